@@ -7,7 +7,8 @@ CONFIG = dict(
                "add-path ids, local/kernel sources, VRFs) of a model of table_manager.rs' FIB/NHT side: the replayed main-table "
                "FIB entry of every prefix equals the next hops of the best path and the paths tied with it before the "
                "router-id step, the same in every VRF whose import targets match, outstanding registrations = peer-learned "
-               "paths using the address (never unregistered below zero), unreachable next hops never in a FIB entry, the "
+               "paths using the address (never unregistered below zero), unreachable next hops never in a main-table or VRF entry, a VRF "
+               "entry withdrawn as soon as the best path is no longer imported, every entry in a known table, the "
                "service loop's watched counts refine the fold; master theorem: the C20 reference checker accepts every model "
                "run. The model is tied to the code by running the real TableManager (kernel handle observed at the channel "
                "through the cfg-guarded kernel hook) and the real run_service_loop on the same generated histories and "
@@ -22,28 +23,37 @@ CONFIG = dict(
     theorems=[
         "Rbgp.Fib.Props.check_run_ok",
         "Rbgp.Fib.Props.check_canon_ok",
+        "Rbgp.Fib.Props.check_all_ok",
         "Rbgp.Fib.Props.fib_eq_ecmp",
         "Rbgp.Fib.Props.vrf_fib_eq",
         "Rbgp.Fib.Props.refcount_eq_uses",
         "Rbgp.Fib.Props.service_refcount_refines",
         "Rbgp.Fib.Props.service_watched_eq_uses",
+        "Rbgp.Fib.Props.feed_ok",
         "Rbgp.Fib.Props.invalid_excluded",
+        "Rbgp.Fib.Props.invalid_excluded_vrf",
+        "Rbgp.Fib.Props.fib_cells_known",
         "Rbgp.Fib.Props.invalid_flag_eq_report",
     ],
     harness=dict(kind="daemon", test="event::verif_event::c20::verif_main"),
     profiles=["debug"],
     n_quick=3000, n_thorough=150000, shards=12,
     nontrivial_re=r"\(fib \(|svc-trace",
-    rule="random histories over 2-4 peers (router ids from {1,2,3} with repeats, so ties before and at the router-id step), "
-         "next hops from 3 IPv4 + 2 IPv6 addresses shared between peers, prefixes 2 IPv4 / 1 IPv6 / 3 VPNv4, add-path ids 0-2, "
-         "LOCAL_PREF {50,100,200}, CLUSTER_LIST length {0,1}, route targets from {1,2,3}, 0-3 VRFs (table ids incl. 0 and "
-         "duplicates); ops: insert/replace (biased to used prefixes), local and kernel-source inserts, remove, peer down, GR "
-         "stale + later purge with re-announcement from a new session, soft reset IN, import policy change (rules matching "
-         "any/peer/next hop with set-next-hop/reject/accept), reachability reports; 4% service-loop request sequences, 3% "
-         "malformed cases; non-trivial = at least one FIB request or a service run; distinct = distinct case line",
-    expect_tokens=["(fib (0 0 ", "(fib (0 1 ", "(0 2 ", "(10 0 ", "(11 0 ", "(12 0 ", " ())", "(r 1) (u ", "(u 1) (u 1)",
-                   "(p 100 ", "(p 101 ", " t f ", " f t ", " 200 t ", " 50 t ", " t 1 ", "(1 2)) ", "(2 1)) ", "(1 2 3))",
-                   "(101", "svc-trace", "(emit t f", "bad-case"],
+    rule="random histories over 2-4 peers (router ids from {1,2,3} with repeats, so ties before and at the router-id step; "
+         "roles eBGP / iBGP / RR client), next hops from 3 IPv4 + 2 IPv6 addresses shared between peers (IPv6 also as "
+         "global+link-local pairs), prefixes 2 IPv4 / 1 IPv6 / 3 VPNv4 / 2 VPNv6, add-path ids 0-2, LOCAL_PREF {50,100,200}, "
+         "AS_PATH length 0-2, ORIGIN 0-2, LLGR_STALE / NO_LLGR communities, CLUSTER_LIST length {0,1}, route targets of all "
+         "three formats, 0-3 VRFs (distinct table ids, table id 0 allowed), families in restarting-speaker deferral from the "
+         "start; ops: insert/replace (biased to used prefixes), local and kernel-source inserts, remove, peer down through "
+         "unregister_peer and through drop_families, GR stale + purge, LLGR stale + purge, re-announcement from a new session, "
+         "soft reset IN, import policy change (rules matching any/peer/next hop with set-next-hop/reject/accept), "
+         "reachability reports, end of deferral; 1/8 of the cases feed the run's register/unregister stream in the order "
+         "sent to the real run_service_loop; 4% service-loop sequences with injected route events; 3% malformed cases; "
+         "non-trivial = at least one FIB request or a service run; distinct = distinct case line",
+    expect_tokens=["(fib (0 0 ", "(fib (0 1 ", "(0 2 ", "(0 3 ", "(10 0 ", "(11 0 ", "(12 1 ", " ())", "(r 1) (u ", "(u 1) (u 1)",
+                   "(p 100 ", "(p 101 ", " t f f ", " f t f ", " f f t ", " f t t ", " 200 0 0 t ", " 50 ", " 100 1 ",
+                   " 100 2 ", " 0 1 t ", " 0 2 t ", " f 0 ", " f 1 ", "(1 2)) ", "(2 1)) ", "(1 2 3))", "(101", "(feed (", "(feed)",
+                   "svc-trace", "(emit t f", "bad-case"],
     trusted_base=["model Rbgp/Fib/Model.lean of daemon/src/table_manager.rs (insert_route, remove_route, unregister_peer, "
                   "drop_stale_families, soft_reset_in, update_nexthop_validity, nht_register, distribute_update) over a reduced "
                   "model of table/src/lib.rs (insert, remove, drop, drop_stale, restale, update_nexthop_validity, ecmp_paths) "
@@ -52,15 +62,21 @@ CONFIG = dict(
                   "rustybgp_kernel::verif (cfg-guarded), snapshots the RIB through the public query API, sorts requests "
                   "between different keys; the import policy with a next-hop action is installed directly in "
                   "TableManager.import_policy (PolicyTable::build_assignment would reject it)",
-                  "service-loop cases need a netlink socket (read-only RTM_GETROUTE by lookup_route)"],
+                  "service-loop and feed cases need a netlink socket (read-only RTM_GETROUTE by lookup_route); without one the "
+                  "generator says so on stderr, drops the svc cases (coverage_gaps lists svc-trace) and the feed cases fail the "
+                  "correspondence (feed-no-netlink)",
+                  "daemon/src/event/mod.rs KernelEvent::NexthopUpdate -> update_nexthop_validity is one line inside "
+                  "Global::serve's select loop and is not executed (the harness calls update_nexthop_validity itself)"],
     modelled_not_verified=["hash-map and shard iteration order (requests of different destinations commute in the replay)",
                            "Arc pointer identity of Source / attribute vectors (numbers allocated per insertion / session)",
                            "Source.stale atomic shared by all paths of a session (per-path flag; a marked Source is never "
                            "re-used for insertion in the generated histories)",
                            "sort_unstable as a stable insertion sort (std uses insertion sort below 20 elements)",
                            "netlink side of the kernel service (apply/withdraw execution, lookup_route results)",
-                           "decision steps held constant by the generator: AS_PATH length, ORIGIN, LLGR-stale, EVPN MAC mobility",
-                           "RFC 4724 deferral and per-peer prefix limits (not part of the property's histories)"],
+                           "decision steps held constant by the generator: EVPN MAC mobility, ORIGINATOR_ID, confederation roles",
+                           "route events of the service loop with a changing kernel answer (lookup_route is real netlink)",
+                           "per-peer prefix limits, add_vrf/delete_vrf and kernel-handle changes in mid-run (not part of the "
+                           "property's histories; probed by hand, see known-findings remarks)"],
     assumptions=["each VPN prefix maps to its own VRF-local prefix (two RDs carrying the same IP prefix into one VRF would need "
                  "a VRF-level best-path selection that the code does not have; such histories are not generated)",
                  "requests of one history step that concern different FIB cells / different addresses are unordered: both "
@@ -70,6 +86,7 @@ CONFIG = dict(
 V4 = [1, 2]
 V6 = [1]
 VPN = [1, 2, 3]
+VPN6 = [1, 2]
 NH4 = [1, 2, 3]
 NH6 = [101, 102]
 RTS = [1, 2, 3]
@@ -80,12 +97,14 @@ def subset(r, xs, p_num=1, p_den=2):
 
 
 def gen_pfx(r):
-    k = r.weighted([(0, 6), (1, 2), (2, 5)])
+    k = r.weighted([(0, 6), (1, 2), (2, 5), (3, 2)])
     if k == 0:
         return (0, r.pick(V4))
     if k == 1:
         return (1, r.pick(V6))
-    return (2, r.pick(VPN))
+    if k == 2:
+        return (2, r.pick(VPN))
+    return (3, r.pick(VPN6))
 
 
 def gen_rule(r, npeers):
@@ -93,28 +112,40 @@ def gen_rule(r, npeers):
     if c == "peer":
         cond = "(peer %d)" % r.below(npeers)
     elif c == "nh":
-        cond = "(nh %d)" % r.pick(NH4 + [4])
+        cond = "(nh %d)" % r.pick(NH4 + [4] + NH6)
     else:
         cond = "any"
     a = r.weighted([("set", 5), ("rej", 2), ("acc", 1)])
-    act = "(set %d)" % r.pick(NH4 + [4]) if a == "set" else a
+    act = "(set %d)" % r.pick(NH4 + [4] + NH6) if a == "set" else a
     return "(rule %s %s)" % (cond, act)
 
 
 def gen_case(r):
     npeers = r.pick([2, 3, 3, 4])
-    rids = [r.pick([1, 2, 3]) for _ in range(npeers)]
+    peers = ["(%d %d)" % (r.pick([1, 2, 3]), r.pick([0, 0, 0, 1, 2])) for _ in range(npeers)]
     nv = r.pick([0, 1, 2, 2, 3])
+    tids = [10, 11, 12]
     vrfs = []
     for _ in range(nv):
-        tid = r.pick([0, 10, 11, 12, 10])
+        if r.chance(1, 6) or not tids:
+            tid = 0
+        else:
+            tid = tids.pop(r.below(len(tids)))
         vrfs.append("(%s)" % " ".join(str(x) for x in [tid] + subset(r, RTS)))
+    defer = r.pick([[], [], [], [], [], [0], [2], [0, 2, 3], [1]])
+    feed = r.chance(1, 8)
     n = 1 + r.below(r.pick([6, 14, 30]))
     ops = []
     live = []        # (src, fam, id, pid) probably stored: bias removals/replacements towards them
+    pending = list(defer)
+    forced = []      # ops scheduled by an earlier op: soft reset after a policy change, purge after stale marking
+    stale, llgrs, unreach, used_nh = [], [], [], []
     for _ in range(n):
-        k = r.weighted([("ins", 12), ("rm", 3), ("nh", 4), ("down", 1), ("stale", 1), ("purge", 1),
-                        ("soft", 2), ("pol", 1), ("loc", 1)])
+        if forced and r.chance(2, 3):
+            ops.append(forced.pop(0))
+            continue
+        k = r.weighted([("ins", 14), ("rm", 3), ("nh", 4), ("down", 1), ("drop", 1), ("stale", 1), ("purge", 2),
+                        ("llgr", 1), ("lpurge", 1), ("soft", 3), ("pol", 2), ("loc", 1), ("undefer", 1 if pending else 0)])
         if k in ("ins", "loc"):
             if k == "loc":
                 src = r.pick([100, 101])
@@ -129,12 +160,17 @@ def gen_case(r):
                 pid = r.pick([0, 0, 0, 1, 2])
             if src >= 100:
                 pid = 0
-            nh = r.pick(NH6) if (f == 1 and r.chance(3, 4)) else r.pick(NH4)
+            nh = r.pick(NH6) if (f in (1, 3) and r.chance(3, 4)) else r.pick(NH4)
             lp = r.pick([100, 100, 100, 100, 200, 50])
             cl = r.pick([0, 0, 0, 1])
-            rts = subset(r, RTS) if (f == 2 or r.chance(1, 8)) else []
-            ops.append("(ins %d %d %d %d %d %d %d (%s))" % (src, f, i, pid, nh, lp, cl, " ".join(map(str, rts))))
+            asl = r.pick([0, 0, 0, 0, 1, 2])
+            org = r.pick([0, 0, 0, 0, 1, 2])
+            fl = (1 if r.chance(1, 12) else 0) + (2 if r.chance(1, 10) else 0) + (4 if (nh >= 100 and r.chance(1, 3)) else 0)
+            rts = subset(r, RTS) if (f >= 2 or r.chance(1, 8)) else []
+            ops.append("(ins %d %d %d %d %d %d %d (%s) %d %d %d)" %
+                       (src, f, i, pid, nh, lp, cl, " ".join(map(str, rts)), asl, org, fl))
             live.append((src, f, i, pid))
+            used_nh.append(nh)
         elif k == "rm":
             if live and r.chance(5, 6):
                 src, f, i, pid = r.pick(live)
@@ -144,18 +180,52 @@ def gen_case(r):
                 pid = r.pick([0, 1])
             ops.append("(rm %d %d %d %d)" % (src, f, i, pid))
         elif k == "nh":
-            ops.append("(nh %d %s)" % (r.pick(NH4 + NH4 + NH6 + [4]), r.pick(["t", "f", "f"])))
+            if unreach and r.chance(1, 2):
+                a = r.pick(unreach)           # reported reachable again
+                unreach.remove(a)
+                ops.append("(nh %d t)" % a)
+            else:
+                a = r.pick(used_nh) if (used_nh and r.chance(2, 3)) else r.pick(NH4 + NH4 + NH6 + [4])
+                up = r.pick(["t", "f", "f", "f"])
+                if up == "f" and a not in unreach:
+                    unreach.append(a)
+                ops.append("(nh %d %s)" % (a, up))
         elif k == "pol":
             nr = r.pick([0, 1, 1, 2, 3])
             ops.append("(pol%s)" % "".join(" " + gen_rule(r, npeers) for _ in range(nr)))
+            srcs = [x[0] for x in live if x[0] < 100]
+            if srcs:
+                forced.append("(soft %d)" % r.pick(srcs))
+        elif k == "stale":
+            p = r.pick([x[0] for x in live if x[0] < 100]) if (live and any(x[0] < 100 for x in live) and r.chance(3, 4)) else r.below(npeers)
+            ops.append("(stale %d)" % p)
+            stale.append(p)
+            forced.append("(purge %d)" % p)
+        elif k == "purge":
+            ops.append("(purge %d)" % (r.pick(stale) if (stale and r.chance(3, 4)) else r.below(npeers)))
+        elif k == "llgr":
+            p = r.pick([x[0] for x in live if x[0] < 100]) if (live and any(x[0] < 100 for x in live) and r.chance(3, 4)) else r.below(npeers)
+            ops.append("(llgr %d)" % p)
+            llgrs.append(p)
+            forced.append("(lpurge %d)" % p)
+        elif k == "lpurge":
+            ops.append("(lpurge %d)" % (r.pick(llgrs) if (llgrs and r.chance(3, 4)) else r.below(npeers)))
+        elif k == "undefer":
+            f = r.pick(pending + [r.pick([0, 1, 2, 3])])
+            if f in pending:
+                pending.remove(f)
+            ops.append("(undefer %d)" % f)
         else:
             ops.append("(%s %d)" % (k, r.below(npeers)))
-    return "(case (peers %s) (vrfs%s) (ops %s))" % (" ".join(map(str, rids)), "".join(" " + v for v in vrfs), " ".join(ops))
+    return "(case (peers %s) (vrfs%s) (opts (defer%s) (feed %s)) (ops %s))" % (
+        " ".join(peers), "".join(" " + v for v in vrfs), "".join(" %d" % f for f in defer),
+        "t" if feed else "f", " ".join(ops))
 
 
 def gen_svc(r):
     n = 1 + r.below(r.pick([4, 10, 16]))
-    return "(svc %s)" % " ".join("(%s %d)" % (r.pick(["r", "r", "u"]), r.pick([1, 2, 3])) for _ in range(n))
+    return "(svc %s)" % " ".join(
+        "e" if r.chance(1, 8) else "(%s %d)" % (r.pick(["r", "r", "u"]), r.pick([1, 2, 3])) for _ in range(n))
 
 
 def mutate(r, case):
@@ -163,7 +233,7 @@ def mutate(r, case):
     if k == 0:
         return case.replace("(ins ", "(inz ", 1)
     if k == 1:
-        return case.replace("(peers ", "(peers 4294967296 ", 1)
+        return case.replace("(peers (", "(peers (4294967296 0) (", 1)
     if k == 2:
         return case.replace(" 100 0 (", " 1001 0 (", 1)
     if k == 3:
@@ -186,14 +256,20 @@ def netlink_ok():
 
 
 SVC_FIXED = [
-    "(svc (r 1) (r 1) (u 1) (r 2) (u 2) (u 2) (r 2) (u 1) (u 1) (r 1))",
-    "(svc (u 3) (r 3) (r 3) (r 3) (u 3))",
+    "(svc (r 1) (r 1) (u 1) (r 2) e (u 2) (u 2) (r 2) (u 1) (u 1) (r 1))",
+    "(svc (u 3) (r 3) (r 3) e (r 3) (u 3))",
 ]
 
 
 def gen(seed, n, tier):
     r = Rng(seed * 1000003 + 20)
     svc = netlink_ok()
+    if not svc:
+        # never silent: without a netlink socket the real run_service_loop cannot be driven; the
+        # service cases are left out (coverage_gaps will list "svc-trace") and the (feed t) cases,
+        # which stay in, will show up as correspondence mismatches (feed-no-netlink)
+        import sys
+        print("C20: NO NETLINK SOCKET - the service-loop cases (real run_service_loop) are NOT run", file=sys.stderr)
     out = list(SVC_FIXED) if svc else []
     for _ in range(n):
         x = r.below(100)
